@@ -415,7 +415,8 @@ class FactoryFunctorPool(FunctorPool):
             self.verbose = verbose
 
         def run(self) -> None:
-            while not self.stop_event.is_set():
+            while True:
+                # only the stop token ends this thread, so the token never stays in the queue
                 replace_id = self.pool._replace_queue.get()
                 if replace_id is None:
                     break
